@@ -178,7 +178,7 @@ macro_rules! c09_display {
             assert!(d.ok && d.k <= 12, "Display output is [-]digits[.digits]");
             assert!(d.neg == (neg && aa != 0) && !d.plus, "sign printed exactly for negative values");
             assert!(correctly_rounded(aa, $F, d.digits, d.k), "printed digits are the value correctly rounded at the digits shown");
-            kani::cover!(d.k >= 2 || $F < 2, "W:two or more fraction digits (or at most one fractional bit)");
+            kani::cover!(d.k >= 2 || digit_budget($F) < 2, "W:two or more fraction digits (or a digit budget below two)");
         }
     };
 }
@@ -200,7 +200,7 @@ macro_rules! c09_roundtrip {
             let mut s = Sink::new();
             let r = write!(s, "{:?}", x);
             assert!(r.is_ok() && !s.overflow, "Debug succeeds");
-            kani::cover!(s.len >= 4, "W:at least four characters (or integer type)");
+            kani::cover!(s.len >= 4 || $F == 0, "W:at least four characters (or integer type)");
             match <$L>::from_str(s.as_str()) {
                 Ok(y) => assert!(y.to_bits() == bits, "FromStr(output) == x"),
                 Err(_) => assert!(false, "default output parses"),
